@@ -315,6 +315,57 @@ def run {β : Type} (h : Handlers) (b : Behaviour β) : Dyn β → List (Request
   | d, r :: rs => let o := dispatch h b d r
                   o :: run h b o.dyn rs
 
+/-! ## Restarting one stub (Start → … → Stop / connection lost → Start again)
+
+The start/stop machine itself is C16's (`StubSession.lean`). What matters here is which part
+of the stub a session can change for the next one: `(*stub).Configure` assigns the two
+timeouts and nothing else — `stub.handlers` and `stub.events` are written by `New` only — and
+`stub.close()` forgets half-collected synchronisation chunks. -/
+
+/-- what outlives a session: the handler table with the implemented-events mask, and `Dyn` -/
+structure StubState (β : Type) where
+  handlers : Handlers
+  dyn : Dyn β
+
+/-- one connection's worth of traffic: the runtime configures the plugin, then (only if that
+    succeeded — otherwise `Start` fails and the connection is torn down) sends requests; the
+    plugin's code may behave differently for every request -/
+structure Session (β : Type) where
+  cfgB : Behaviour β
+  config : Str
+  runtime : Str
+  version : Str
+  regMs : Int
+  reqMs : Int
+  reqs : List (Behaviour β × Request β)
+
+structure SessionOut (β : Type) where
+  cfg : Outcome β
+  outs : List (Outcome β)
+
+def runReqs {β : Type} (h : Handlers) : Dyn β → List (Behaviour β × Request β) → List (Outcome β) × Dyn β
+  | d, [] => ([], d)
+  | d, (b, r) :: rest =>
+    let o := dispatch h b d r
+    let (os, d') := runReqs h o.dyn rest
+    (o :: os, d')
+
+/-- `Start` … `Stop()` / `connClosed()`: `close()` resets `syncReq` when the stub had started -/
+def runSession {β : Type} (st : StubState β) (s : Session β) : SessionOut β × StubState β :=
+  let o := dispatch st.handlers s.cfgB st.dyn (.configure s.config s.runtime s.version s.regMs s.reqMs)
+  match o.result with
+  | .error _ => (⟨o, []⟩, { handlers := st.handlers, dyn := o.dyn })
+  | .ok _ =>
+    let (outs, d) := runReqs st.handlers o.dyn s.reqs
+    (⟨o, outs⟩, { handlers := st.handlers, dyn := { d with syncReq := none } })
+
+def runSessions {β : Type} : StubState β → List (Session β) → List (SessionOut β) × StubState β
+  | st, [] => ([], st)
+  | st, s :: rest =>
+    let (o, st1) := runSession st s
+    let (os, st2) := runSessions st1 rest
+    (o :: os, st2)
+
 /-! ## Specification vocabulary (what the runtime *means* by each event) -/
 
 /-- the handler an event number belongs to -/
